@@ -497,6 +497,7 @@ func (q *Query) Next() bool {
 		}
 	}
 	if !q.rows.Next() {
+		q.err = q.rows.Err()
 		return false
 	}
 	var content []byte
@@ -656,6 +657,7 @@ func (ul *UploadList) Next() bool {
 		return false
 	}
 	if !ul.rows.Next() {
+		ul.err = ul.rows.Err()
 		return false
 	}
 	args := []interface{}{&ul.uploadID, &ul.count}
